@@ -110,6 +110,16 @@ theorem validate_no_panic_ranked (env : VEnv) (hwf : EnvWF env) (hst : StoreWF e
     Go.validateFuel env fuel stack g s ≠ .panic ∧ Go.validateFuel env fuel stack g s ≠ .fuel :=
   validate_no_panic_partial env hwf hst fuel stack hstack s g j hg hj (C01.spec_defined env hr hc fuel stack s j hs hf)
 
+/-- the same with the cycle search `guarded` as the hypothesis, and the bound that only mentions the size of the store -/
+theorem validate_no_panic_of_guarded (env : VEnv) (hwf : EnvWF env) (hst : StoreWF env.st)
+    (hg : guarded env = true) (hc : closed env = true) (fuel : Nat) (stack : List NodeId)
+    (hstack : ∀ x, x ∈ stack → (env.info? x).isSome = true) (s : NodeId) (hs : s < env.st.size) (g : GoVal) (j : Json)
+    (hg' : GoVal.denote g = some j) (hj : Json.WF j = true)
+    (hf : (Json.depth j + 1) * (env.st.size + 2) ≤ fuel) :
+    Go.validateFuel env fuel stack g s ≠ .panic ∧ Go.validateFuel env fuel stack g s ≠ .fuel :=
+  validate_no_panic_partial env hwf hst fuel stack hstack s g j hg' hj
+    (C01.spec_defined_size env ((C01.guarded_iff_ranked env hc).1 hg) hc fuel stack s j hs hf)
+
 /-- with the bound that only mentions the size of the store -/
 theorem validate_no_panic_ranked_size (env : VEnv) (hwf : EnvWF env) (hst : StoreWF env.st)
     (hr : ranked env = true) (hc : closed env = true) (fuel : Nat) (stack : List NodeId)
